@@ -38,31 +38,27 @@ Proof.
   cbn [lex_by]. rewrite <- IH. unfold jentry_cmp. cbn [fst snd]. rewrite cthen_assoc. reflexivity.
 Qed.
 
-(* free of defect classes 2 and 3 *)
-Definition jfree (j : json) : Prop := jany jnode_bad2 j = false /\ jany jnode_bad3 j = false.
+(* free of defect class 3 *)
+Definition jfree (j : json) : Prop := jany jnode_bad3 j = false.
 
 Lemma jfree_arr l x : jfree (JArr l) -> In x l -> jfree x.
 Proof.
-  unfold jfree. cbn [jany jnode_bad2 jnode_bad3 orb]. intros [H2 H3] Hin. split.
-  - destruct (jany jnode_bad2 x) eqn:E; [|reflexivity].
-    assert (existsb (jany jnode_bad2) l = true) by (apply existsb_exists; eauto). congruence.
-  - destruct (jany jnode_bad3 x) eqn:E; [|reflexivity].
-    assert (existsb (jany jnode_bad3) l = true) by (apply existsb_exists; eauto). congruence.
+  unfold jfree. cbn [jany jnode_bad3 orb]. intros H3 Hin.
+  destruct (jany jnode_bad3 x) eqn:E; [|reflexivity].
+  assert (existsb (jany jnode_bad3) l = true) by (apply existsb_exists; eauto). congruence.
 Qed.
 
 Lemma jfree_obj l e : jfree (JObj l) -> In e l -> jfree (snd e).
 Proof.
-  unfold jfree. cbn [jany jnode_bad2 orb]. intros [H2 H3] Hin. split.
-  - destruct (jany jnode_bad2 (snd e)) eqn:E; [|reflexivity].
-    assert (existsb (fun e => jany jnode_bad2 (snd e)) l = true) by (apply existsb_exists; eauto). congruence.
-  - apply orb_false_iff in H3. destruct H3 as [_ H3].
-    destruct (jany jnode_bad3 (snd e)) eqn:E; [|reflexivity].
-    assert (existsb (fun e => jany jnode_bad3 (snd e)) l = true) by (apply existsb_exists; eauto). congruence.
+  unfold jfree. cbn [jany]. intros H3 Hin.
+  apply orb_false_iff in H3. destruct H3 as [_ H3].
+  destruct (jany jnode_bad3 (snd e)) eqn:E; [|reflexivity].
+  assert (existsb (fun e => jany jnode_bad3 (snd e)) l = true) by (apply existsb_exists; eauto). congruence.
 Qed.
 
 Lemma jfree_obj_head l e : jfree (JObj l) -> hd_error l = Some e -> key_starts_nul (fst e) = false.
 Proof.
-  unfold jfree. intros [_ H3] Hh. destruct l as [|[k v] l]; [discriminate|]. inversion Hh; subst.
+  unfold jfree. intros H3 Hh. destruct l as [|[k v] l]; [discriminate|]. inversion Hh; subst.
   cbn [jany jnode_bad3] in H3. apply orb_false_iff in H3. exact (proj1 H3).
 Qed.
 
@@ -115,8 +111,7 @@ Proof.
   - destruct j2 as [| [] | | | |]; try other_kind. cbn [jenc app jcmp jkind]. rewrite pfx_same. reflexivity.
   - destruct b1; destruct j2 as [| [] | | | |]; try other_kind; cbn [jenc app jcmp jkind]; rewrite pfx_same; reflexivity.
   - destruct j2 as [| [] | b2 | | |]; try other_kind. cbn [jenc app jcmp]. rewrite pfx_same.
-    destruct F1 as [F1 _], F2 as [F2 _]. cbn [jany jnode_bad2] in F1, F2. rewrite orb_false_r in F1, F2.
-    apply jnum_ord; assumption.
+    cbn [jwf] in W1, W2. apply jnum_ord; assumption.
   - destruct j2 as [| [] | | s2 | |]; try other_kind. cbn [jenc app jcmp]. rewrite pfx_same.
     cbn [jwf] in W1, W2. apply esc_order; apply text_ok_bytes; assumption.
   - destruct j2 as [| [] | | | l2 |]; try other_kind. cbn [jenc app]. rewrite pfx_same, jcmp_arr.
@@ -166,21 +161,20 @@ Lemma jdec_obj f t : jdec (S f) (KP_JSON_OBJECT :: t) =
   rmap (fun l n => ROk (JObj l) (1 + n)) (jobj f (jdec f) t true).
 Proof. reflexivity. Qed.
 
-Lemma jnum_back b : in_u 64 b = true -> bad64 b = false ->
+Lemma jnum_back b : in_u 64 b = true ->
   (if SIGN64 <=? jnenc b then flip 64 (jnenc b) else bnot 64 (jnenc b)) = b.
 Proof.
-  intros W K. destruct (split64 b W) as [Hm Hb].
-  unfold jnenc, lt0_64, bad64, bnot, flip in *. unfold SIGN64 in *. pows.
-  destruct (neg64 b) eqn:Es; cbn [andb] in *.
-  - destruct (mag64 b =? 0) eqn:Ez; cbn [orb negb andb] in *; [discriminate|]. rewrite K. cbn [negb].
-    destruct (9223372036854775808 <=? 18446744073709551616 - 1 - b) eqn:C; lia.
+  intros W. destruct (split64 b W) as [Hm Hb].
+  unfold jnenc, bnot, flip in *. unfold SIGN64 in *. pows.
+  destruct (neg64 b) eqn:Es.
+  - destruct (9223372036854775808 <=? 18446744073709551616 - 1 - b) eqn:C; lia.
   - destruct (b <? 9223372036854775808) eqn:C; [|lia].
     destruct (9223372036854775808 <=? b + 9223372036854775808) eqn:C2; [|lia].
     destruct (b + 9223372036854775808 <? 9223372036854775808) eqn:C3; lia.
 Qed.
 
-Lemma jnenc_range b : in_u 64 b = true -> bad64 b = false -> 0 <= jnenc b < 256 ^ Z.of_nat 8.
-Proof. intros W K. rewrite jnenc_tot by assumption. apply tot64_range. exact W. Qed.
+Lemma jnenc_range b : in_u 64 b = true -> 0 <= jnenc b < 256 ^ Z.of_nat 8.
+Proof. intros W. rewrite jnenc_tot by assumption. apply tot64_range. exact W. Qed.
 
 (* the entry loop of decode_json_object on the tail of an object *)
 Section Obj.
@@ -262,7 +256,7 @@ Proof.
     (destruct fuel as [|fuel]; [cbn [jsize] in Hf; lia|]).
   - reflexivity.
   - destruct b; reflexivity.
-  - destruct F as [F _]. cbn [jany jnode_bad2] in F. rewrite orb_false_r in F. cbn [jwf] in W.
+  - cbn [jwf] in W.
     cbn [jenc app]. rewrite jdec_num.
     rewrite blen_cons, blen_app, blen_be_bytes.
     pose proof (blen_nonneg r). destruct (Z.leb_spec 9 (1 + (Z.of_nat 8 + blen r))); [|lia].
